@@ -42,6 +42,9 @@ DivOps == {"div", "rem", "div_rem", "checked_div", "div_floor", "mod_floor", "di
 Fails(e) ==
     CASE e.op \in {"sub", "checked_sub"} /\ IsUTy(e) -> FailsSubU(A(e, 1), A(e, 2))
       [] e.op \in DivOps -> FailsDiv(A(e, 2))
+      [] e.op \in {"shl", "shr"} -> e.sc[1].neg /\ e.sc[1].m # <<>>
+      [] e.op \in {"to_str_radix", "parse"} -> FailsTextRadix(e.radix)
+      [] e.op \in {"to_radix_le", "to_radix_be", "from_radix_le", "from_radix_be"} -> FailsDigitRadix(e.radix)
       [] OTHER -> FALSE
 
 \* checked_* operations report failure as None and never panic
@@ -58,13 +61,49 @@ DivRule(e) ==
 (* Rule(e): the call returned normally and is not in a failure case.       *)
 Rule(e) ==
     CASE e.op = "from_bytes_le" -> PostIs1(e, OfBytesLE(IF Has(e, "sgn") THEN e.sgn ELSE 1, e.bytes))
-      [] e.op = "new_u32"       -> PostIs1(e, OfBytesLE(1, e.words))
+      [] e.op = "from_bytes_be" -> PostIs1(e, OfBytesBE(IF Has(e, "sgn") THEN e.sgn ELSE 1, e.bytes))
+      [] e.op = "new_u32"       -> PostIs1(e, OfBytesLE(IF Has(e, "sgn") THEN e.sgn ELSE 1, e.words))
+      [] e.op = "from_signed_bytes_le" -> PostIs1(e, TwosDecode(e.bytes))
+      [] e.op = "from_signed_bytes_be" -> PostIs1(e, TwosDecode(Reverse(e.bytes)))
+      [] e.op = "to_bytes_le" -> e.ret.bytes = BytesLE(S(e, 1)) /\ (e.ty = "I" => e.ret.n = S(e, 1).s)
+      [] e.op = "to_bytes_be" -> e.ret.bytes = Reverse(BytesLE(S(e, 1))) /\ (e.ty = "I" => e.ret.n = S(e, 1).s)
+      [] e.op = "to_u32_digits" -> IsWordsOf(e.ret.bytes, S(e, 1), 4) /\ (e.ty = "I" => e.ret.n = S(e, 1).s)
+      [] e.op = "to_u64_digits" -> IsWordsOf(e.ret.bytes, S(e, 1), 8) /\ (e.ty = "I" => e.ret.n = S(e, 1).s)
+      [] e.op = "to_signed_bytes_le" -> IsSignedBytesLE(e.ret.bytes, S(e, 1))
+      [] e.op = "to_signed_bytes_be" -> IsSignedBytesLE(Reverse(e.ret.bytes), S(e, 1))
+      [] e.op = "iter_collect" -> e.ret.bytes = Flatten(IF e.rev THEN Reverse(WordList(S(e, 1), e.w)) ELSE WordList(S(e, 1), e.w))
+      [] e.op = "to_str_radix" -> IsTextOf(e.ret.text, S(e, 1), e.radix, FALSE)
+      [] e.op = "fmt" -> e.ret.text = FormatR(S(e, 1), e.spec)
+      [] e.op = "to_radix_le" -> IsDigitsOf(Reverse(e.ret.bytes), S(e, 1).d, e.radix) /\ (e.ty = "I" => e.ret.n = S(e, 1).s)
+      [] e.op = "to_radix_be" -> IsDigitsOf(e.ret.bytes, S(e, 1).d, e.radix) /\ (e.ty = "I" => e.ret.n = S(e, 1).s)
+      [] e.op = "parse" ->
+            LET pr == ParseText(e.text, e.radix, e.ty = "I") IN
+            IF pr.ok THEN e.ret.some /\ PostIs1(e, pr.v) ELSE ~e.ret.some
+      [] e.op \in {"from_radix_le", "from_radix_be"} ->
+            LET ds == IF e.op = "from_radix_le" THEN Reverse(e.digits) ELSE e.digits IN
+            IF FromRadixOK(ds, e.radix)
+            THEN e.ret.some /\ PostIs1(e, OfSignMag(IF Has(e, "sgn") THEN e.sgn ELSE 1, ZNat(ValueMsb(ds, e.radix))))
+            ELSE ~e.ret.some
+      [] e.op = "iter" -> IterOK(S(e, 1), e.w, e.ret.calls)
       [] e.op = "from_biguint"  -> PostIs1(e, OfSignMag(e.sgn, S(e, 1)))
       [] e.op = "clone"         -> PostIs1(e, S(e, 1))
       [] e.op \in {"add", "checked_add"} -> PostIs1(e, AddR(A(e, 1), A(e, 2)))
       [] e.op \in {"sub", "checked_sub"} -> PostIs1(e, SubR(A(e, 1), A(e, 2)))
       [] e.op \in {"mul", "checked_mul"} -> PostIs1(e, MulR(A(e, 1), A(e, 2)))
       [] e.op \in DivOps -> DivRule(e)
+      [] e.op = "bitand" -> PostIs1(e, ZAnd(A(e, 1), A(e, 2)))
+      [] e.op = "bitor"  -> PostIs1(e, ZOr(A(e, 1), A(e, 2)))
+      [] e.op = "bitxor" -> PostIs1(e, ZXor(A(e, 1), A(e, 2)))
+      [] e.op = "not"    -> PostIs1(e, ZNot(S(e, 1)))
+      [] e.op = "shl"    -> PostIs1(e, ShlR(S(e, 1), e.sc[1].m))
+      [] e.op = "shr"    -> PostIs1(e, ShrR(S(e, 1), e.sc[1].m))
+      [] e.op = "bit"    -> e.ret.b = BitR(S(e, 1), e.sc[1].m)
+      [] e.op = "set_bit" -> PostIs1(e, SetBitR(S(e, 1), e.sc[1].m, e.v))
+      [] e.op = "bits"   -> e.ret.n = BitLen(S(e, 1).d)
+      [] e.op = "trailing_zeros" -> IF S(e, 1).s = 0 THEN ~e.ret.some
+                                    ELSE e.ret.some /\ e.ret.n = TrailingZeros(S(e, 1).d)
+      [] e.op = "trailing_ones"  -> e.ret.n = TrailingOnes(S(e, 1).d)
+      [] e.op = "count_ones"     -> e.ret.n = CountOnes(S(e, 1).d)
       [] e.op = "is_multiple_of" ->
             LET a == A(e, 1)  b == A(e, 2)  q == Adopt(e.hint[1])  r == ZSub(a, ZMul(q, b)) IN
             IF b.s = 0 THEN e.ret.b = (a.s = 0)
@@ -78,8 +117,8 @@ Reason(e) ==
     ELSE IF e.out = "panic" THEN (IF Fails(e) /\ ~IsChecked(e) THEN "ok" ELSE "unexpected_panic")
     ELSE IF IsChecked(e) /\ ~e.ret.some THEN (IF Fails(e) THEN "ok" ELSE "unexpected_none")
     ELSE IF Fails(e) THEN "missing_failure"
-    ELSE IF ~AllPostCanon(e) THEN "noncanon"
     ELSE IF ~Rule(e) THEN "value"
+    ELSE IF ~AllPostCanon(e) THEN "noncanon"
     ELSE "ok"
 
 ----------------------------------------------------------------------------
